@@ -461,6 +461,15 @@ def run_derived_targets(ctx):
             target = url.split("?")[0] + f"?step={len(seen)}"
         elif how == "slash-then-segment":
             target = url + ("/" if len(seen) % 2 else "x")
+        elif how == "parent":
+            # every hop leads to the parent directory (each target is a PREFIX of all URLs visited so far); the root answers 20
+            base_, _, rest = url.partition("://")[2].partition("/")
+            segs = [x for x in rest.split("/") if x]
+            if not segs:
+                conn.send(b"20 text/gemini\r\nend of a derived chain\n")
+                conn.close()
+                return
+            target = f"gemini://{base_}/" + "".join(x + "/" for x in segs[:-1])
         else:  # "slash-once-then-back": x -> x/ -> x -> ...
             target = url[:-1] if url.endswith("/") else url + "/"
         conn.send(f"3{len(seen) % 2} {target}\r\n".encode())
@@ -506,6 +515,45 @@ def run_derived_targets(ctx):
                     else:
                         ctx.count("monitor", "loops_or_overlong")
                     ctx.case(("derived", how, mr, ends_after, res[0], conns), True, sample=wit)
+        # chains that walk UP a directory tree: loop-free although every target is a prefix of an earlier URL
+        for depth in (1, 2, 3, 4):
+            for mr in (depth - 1, depth, 5):
+                if mr < 0:
+                    continue
+                mode.update(how="parent", ends_after=None)
+                del seen[:]
+                tmp = tempfile.mkdtemp(prefix="vf-c16d-")
+                n0 = len(srv.log)
+
+                async def go_up():
+                    c = GeminiClient(timeout=8, max_redirects=mr, trust_on_first_use=True, tofu_db_path=Path(os.path.join(tmp, "t.db")))
+                    return await c.get(f"gemini://127.0.0.1:{srv.port}/" + "".join(f"dir{j}/" for j in range(depth)))
+
+                try:
+                    r = asyncio.run(go_up())
+                    res = ("response", r.status, (r.meta or "")[:60])
+                except BaseException as e:  # noqa: BLE001
+                    res = ("error", type(e).__name__, str(e)[:80])
+                finally:
+                    shutil.rmtree(tmp, ignore_errors=True)
+                srv.wait_idle(3)
+                conns = len(srv.log) - n0
+                ctx.count("monitor", "fetches")
+                ctx.count("monitor", "fetches_with_derived_targets")
+                ctx.count("monitor", "connections_logged", conns)
+                wit = {"level": "derived-targets", "each_hop_redirects_to": "the parent directory", "chain_length": depth, "max_redirects": mr, "result": res, "connections": conns, "requested": seen[:8]}
+                if conns > mr + 1:
+                    ctx.violation("too-many-connections:derived-target=parent", f"max_redirects={mr} allows {mr + 1} connections, {conns} were opened", wit)
+                elif depth <= mr:
+                    if res[:2] != ("response", 20) or conns != depth + 1:
+                        ctx.violation("chain-within-limit-not-followed:derived-target=parent", f"a loop-free chain of {depth} redirects (limit {mr}) must end in its 20; got {res} after {conns} connections", wit)
+                    else:
+                        ctx.count("monitor", "chains_followed_to_end")
+                elif res[0] != "error":
+                    ctx.violation("overlong-chain-returned-response:derived-target=parent", f"the chain is longer than max_redirects={mr}; the call returned {res}", wit)
+                else:
+                    ctx.count("monitor", "loops_or_overlong")
+                ctx.case(("derived", "parent", depth, mr, res[0], conns), True, sample=wit)
 
 
 def run_cli(ctx, world):
